@@ -521,7 +521,19 @@ class KI:
                 else:
                     self.bind(el, items[i] if items is not None else None, s, None)
         elif isinstance(t, ast.Attribute):
-            self.attr_stores = [x for x in self.attr_stores if x[0] is not s] + [(s, self.ev(t.value), t.attr, v)]
+            recv = self.ev(t.value)
+            self.attr_stores = [x for x in self.attr_stores if x[0] is not s] + [(s, recv, t.attr, v)]
+            if isinstance(recv, Mat) and t.attr == "data":
+                self.need("alias", recv.alias != "own", s,
+                          f"`{u(s)[:70]}` overwrites the data of the grid's own matrix (format conversions without copy=True return the object itself)",
+                          construct="the grid's own incidence data is not overwritten")
+                sg = None
+                if isinstance(v, Arr) and ("unsigned" in v.flags or "bool" in v.flags):
+                    sg = False
+                elif isinstance(v, Arr) and "signed" in v.flags:
+                    sg = True
+                if isinstance(t.value, ast.Name):
+                    self.env[t.value.id] = replace(recv, signed=sg)
         elif isinstance(t, ast.Subscript):
             self.store_sub(s, t, v, False)
 
@@ -1302,8 +1314,9 @@ class KI:
         if isinstance(recv, Mat):
             if name in ("tocsc", "tocsr"):
                 fmt = name[2:]
+                cp = kwarg(c, "copy") or (c.args[0] if c.args else None)
                 if recv.fmt == fmt:
-                    return recv
+                    return replace(recv, alias="fresh") if isinstance(cp, ast.Constant) and cp.value is True else recv
                 m = Mat(recv.rk, recv.ck, recv.signed, fmt, ("conv", recv.mid, fmt))
                 self.mats[m.mid] = m
                 return m
@@ -1627,9 +1640,13 @@ class KI:
             if any(self.compat(x.axes[0], ax) is False for x in real):
                 return Arr(vk, None, ("rows", tuple(real)))
             return Arr(vk, (("pos", sp.Integer(len(real))), ax), ("rows", tuple(real)))
-        if all(len(x.axes) == 2 for x in items if x.axes is not None):
-            last = real[0].axes[-1]
-            if any(x.axes[-1] != last for x in real):
+        if all(len(x.axes) in (1, 2) for x in items if x.axes is not None) and any(len(x.axes) == 2 for x in real):
+            # rows (1-d) and row blocks (2-d) over one common last axis; a plain [n] axis adopts the structured layout of its neighbours
+            items = [x if x.axes is None or len(x.axes) == 2 else replace(x, axes=(("pos", sp.Integer(1)), x.axes[0])) for x in items]
+            real = [x for x in items if x.vk != BOT]
+            structured = [x.axes[-1] for x in real if not (isinstance(x.axes[-1], tuple) and x.axes[-1][0] == "pos")]
+            last = structured[0] if structured else real[0].axes[-1]
+            if any(x.axes[-1] != last and self.compat(x.axes[-1], last) is not True for x in real) or any(a_ != last for a_ in structured):
                 return Arr(vk, None, None)
             tot = sp.Integer(0)
             for x in items:
@@ -1705,11 +1722,14 @@ class KI:
     def f_tile(self, c, argv):
         if len(argv) == 1 and kwarg(c, "reps") is not None:
             argv = [argv[0], self.ev(kwarg(c, "reps"))]
+        if len(argv) == 2 and isinstance(argv[0], Arr) and argv[0].axes is not None and len(argv[0].axes) == 2 and isinstance(argv[1], Int):
+            a = argv[0]   # an integer repetition tiles the LAST axis
+            return Arr(a.vk, (a.axes[0], flat_prod([("pos", argv[1].p), a.axes[1]])), ("tile", a.ident, argv[1].p), a.flags & {"signed", "unsigned"})
         if len(argv) != 2 or not isinstance(argv[0], Arr) or argv[0].axes is None or len(argv[0].axes) != 1:
             return None
         a, reps = argv
         if isinstance(reps, Int):
-            return Arr(a.vk, (flat_prod([("pos", reps.p), a.axes[0]]),), ("tile", a.ident, reps.p), a.flags & {"idmap"})
+            return Arr(a.vk, (flat_prod([("pos", reps.p), a.axes[0]]),), ("tile", a.ident, reps.p), a.flags & {"idmap", "signed", "unsigned"})
         if isinstance(reps, Tup) and len(reps.items) == 2 and all(isinstance(x, Int) for x in reps.items) and reps.items[1].p == 1:
             return Arr(a.vk, (("pos", reps.items[0].p), a.axes[0]), ("tile2", a.ident, reps.items[0].p), a.flags & {"idmap"})
         return None
@@ -1717,6 +1737,11 @@ class KI:
     def f_repeat(self, c, argv):
         if len(argv) == 1 and kwarg(c, "repeats") is not None:
             argv = [argv[0], self.ev(kwarg(c, "repeats"))]
+        axr = self.ev(kwarg(c, "axis")) if kwarg(c, "axis") is not None else None
+        if len(argv) == 2 and isinstance(argv[0], Arr) and argv[0].axes is not None and len(argv[0].axes) == 2 and isinstance(argv[1], Int) \
+                and isinstance(axr, Int) and axr.p.is_Integer and int(axr.p) in (1, -1):
+            a = argv[0]
+            return Arr(a.vk, (a.axes[0], flat_prod([a.axes[1], ("pos", argv[1].p)])), ("repeat", a.ident, argv[1].p), a.flags & {"signed", "unsigned"})
         if len(argv) != 2 or not isinstance(argv[0], Arr) or argv[0].axes is None or len(argv[0].axes) != 1 or kwarg(c, "axis") is not None:
             return None
         a, reps = argv
@@ -3191,7 +3216,10 @@ MUTANTS = [
     _m("partition-grid-lists-mixed", "        face_map_list.append(fm)\n", "        face_map_list.append(nm)\n", "R6"),
     _m("partition-grid-unpack-order", "sg, fm, nm = extract_subgrid(g, ci)", "sg, nm, fm = extract_subgrid(g, ci)", "R6"),
     _m("overlap-one-layer-short", "for _ in range(num_layers):", "for _ in range(num_layers - 1):", "R7", count=2),
-    _m("overlap-signed-incidence", "cf = sps.csc_matrix((data, cf.indices, cf.indptr))", "cf = sps.csc_matrix((cf.data, cf.indices, cf.indptr))", "R7"),
+    _m("overlap-signed-incidence", "        cf.data = np.ones_like(cf.data)\n", "", "R7"),
+    _m("revert-fix-7cd3b1475-overlap-incidence-rebuilt-without-shape", "        cf = g.cell_faces.tocsc(copy=True)\n        cf.data = np.ones_like(cf.data)\n",
+       "        cf = g.cell_faces\n        data = np.ones_like(cf.data)\n        cf = sps.csc_matrix((data, cf.indices, cf.indptr))\n", "R7"),
+    _m("overlap-overwrites-grid-incidence", "        cf = g.cell_faces.tocsc(copy=True)\n", "        cf = g.cell_faces.tocsc()\n", "R7"),
     _m("overlap-face-arm-marks-nodes", "            active_faces[np.squeeze(np.where((cf * active_cells) > 0))] = 1",
        "            active_faces[np.squeeze(np.where((g.cell_nodes() * active_cells) > 0))] = 1", "R7"),
     _m("connected-columns-not-restricted", "c2c.tocsr()[cell_ind, :].tocsc()[:, cell_ind]", "c2c.tocsr()[cell_ind, :].tocsc()[:, np.sort(cell_ind)]", "R8"),
